@@ -257,9 +257,11 @@ def check(case, stats=None):
                     return []
                 wt = Interval([x[0] for x in wins], np.array([x[1] for x in wins], dtype=int), np.array([x[1] + w for x in wins], dtype=int))
                 gw = genome.get_intervals(NpDataclassStream(iter([wt]), dataclass=Interval))
+                d_ = case.get("d", 0)
+                merged_node = gi.merged(d_).get_mask().sum() if "merged" in case["parts"] else None     # built (and listed) before the others
                 pile = gi.get_pileup()
-                nodes = {"mean": pile[gw].mean(axis=0), "sum": pile.sum(), "hist": np.histogram(pile, bins=edges)}
-                which = [k_ for k_ in ("mean", "sum", "hist") if k_ in case["parts"]]
+                nodes = {"merged": merged_node, "mean": pile[gw].mean(axis=0), "sum": pile.sum(), "hist": np.histogram(pile, bins=edges)}
+                which = [k_ for k_ in ("merged", "mean", "sum", "hist") if k_ in case["parts"]]
                 if case.get("as_dict"):
                     res = bnp.compute({k_: nodes[k_] for k_ in which})
                 else:
@@ -274,6 +276,10 @@ def check(case, stats=None):
                         pass
                     if not ok:
                         return [Failure("C11:joint-compute:mean", {"streamed": repr(res["mean"])[:300], "expected": want_mean, "parts": which})]
+                if "merged" in res:
+                    want_m = sum(b - a for n in names for a, b in c08.merged_model(per[n], sizes[n], d_))
+                    if int(np.asarray(res["merged"])) != want_m:
+                        return [Failure("C11:joint-compute:merged-mask-sum", {"streamed": repr(res["merged"])[:200], "expected": want_m, "distance": d_, "parts": which})]
                 if "sum" in res and int(np.asarray(res["sum"])) != sum(flat_dense):
                     return [Failure("C11:joint-compute:sum", {"streamed": repr(res["sum"])[:200], "expected": sum(flat_dense), "parts": which})]
                 if "hist" in res and np.asarray(res["hist"][0]).tolist() != want_hist:
@@ -324,7 +330,7 @@ def all_chunkings_cases(n, datasets, stride=1, offset=0):
                 cnt += 1
                 if (cnt + offset) % stride:
                     continue
-                yield make_case(genome, ents, cuts, comp, i)
+                yield make_case(genome, ents, cuts, comp, i * 31 + mask)
 
 
 def make_case(genome, ents, cuts, comp, salt):
@@ -344,8 +350,9 @@ def make_case(genome, ents, cuts, comp, salt):
     if comp == "joint":
         case["w"] = 1 + salt % 3
         case["edges"] = [0, 1, 2, 3, 5, 20]
-        case["parts"] = [["mean", "sum", "hist"], ["mean", "sum"], ["mean", "hist"], ["sum", "hist"], ["mean"]][salt % 5]
-        case["as_dict"] = bool((salt // 5) % 2)
+        case["parts"] = [["mean", "sum", "hist"], ["mean", "sum"], ["mean", "hist"], ["sum", "hist"], ["mean"], ["merged", "sum"], ["merged", "mean", "hist"]][salt % 7]
+        case["as_dict"] = bool((salt // 7) % 2)
+        case["d"] = [0, 1, 2, 3][(salt // 14) % 4]
     return case
 
 
@@ -372,7 +379,7 @@ def sampled_case(draw, nmax):
     n = len(ents)
     cuts = draw(st.one_of(st.just([]), st.lists(st.integers(1, max(1, n - 1)), max_size=min(n, 12)), st.just(list(range(1, n)))))
     comp = draw(st.sampled_from(COMPS))
-    case = make_case(genome, ents, cuts, comp, draw(st.integers(0, 20)))
+    case = make_case(genome, ents, cuts, comp, draw(st.integers(0, 55)))
     if comp == "chunk_entries":
         case["m"] = draw(st.integers(1, max(1, n)))
     return case
